@@ -100,6 +100,29 @@ fn run(ctx: &RunCtx) -> Report {
     for i in 0..n {
         rawnet.with_peer(i, |p| p.knows = (0..n).collect());
     }
+    // 1 plain run in 6 (own random stream): a *forger* - one more replica answers after the honest ones with the
+    // key and signature of an authentic item over a higher seq (or a greater value for the same seq): not an
+    // authentic item, so it is not part of what the lookup delivered
+    let mut frng = Rng::new(crate::rng::key(ctx.seed, &[crate::rng::tag("c16-forger")]));
+    let forger = enumerated.is_none() && !long_stream && !late_family && frng.chance(1, 6);
+    if forger {
+        if let Some(base) = items.iter().flatten().max_by_key(|it| it.seq) {
+            let mut f = base.clone();
+            if frng.chance(1, 2) {
+                f.seq = f.seq.saturating_add(1 + frng.range(0, 1_000_000) as i64);
+            } else {
+                f.v = b"zzzzzzzz forged, greater than every authentic value".to_vec();
+            }
+            let mut p = Peer::new(frng.id(), SocketAddrV4::new(priv_ip(58), 6881));
+            p.k = 20;
+            p.delay = frng.range(200, 420) * MS;
+            p.mutable.insert(target, f);
+            let fi = rawnet.add(&sim, p);
+            rawnet.with_peer(fi, |p| p.knows = (0..n).collect());
+            addrs.push(SocketAddrV4::new(priv_ip(58), 6881));
+            report.probe("forger_runs", 1);
+        }
+    }
     if late_family {
         let m = lrng.usize(3, 7);
         let base = n;
@@ -232,6 +255,7 @@ fn run(ctx: &RunCtx) -> Report {
     }
 
     let t_done = async_op.and_then(|op| sim.with_op(op, |o| o.done_at)).unwrap_or(u64::MAX);
+    let forged_seen = std::cell::Cell::new(0u64);
     let late_counted = std::cell::Cell::new(0u64);
     let late_ambiguous = std::cell::Cell::new(false);
     let lookup_active_at_call = std::cell::Cell::new(false);
@@ -253,7 +277,14 @@ fn run(ctx: &RunCtx) -> Report {
                 if let Some(sent) = reqs.get(&(d.src, k.tid_u32().unwrap_or(0))) {
                     let rtt = d.t_deliver.unwrap() - sent;
                     if let (Some(v), Some(seq)) = (k.bytes_field("v"), k.int_field("seq")) {
-                        if rtt < 500 * MS {
+                        // only authentic items count as delivered
+                        let authentic = match (k.bytes_field("k"), k.bytes_field("sig")) {
+                            (Some(kk), Some(sig)) if kk == pk.as_slice() && sig.len() == 64 => krpc::verify(&pk, &krpc::mutable_signable(seq, v, salt.as_deref()), sig.try_into().unwrap()),
+                            _ => false,
+                        };
+                        if !authentic {
+                            forged_seen.set(forged_seen.get() + 1);
+                        } else if rtt < 500 * MS {
                             out.push((d.t_deliver.unwrap(), seq, v.to_vec()));
                         } else if d.dup_of.is_none() && d.t_deliver.unwrap() <= t_done && t_done != u64::MAX {
                             late.push((d.t_deliver.unwrap(), rtt, (d.src, k.tid_u32().unwrap_or(0)), seq, v.to_vec()));
@@ -310,6 +341,9 @@ fn run(ctx: &RunCtx) -> Report {
         out.into_iter().filter(|o| o.0 > t_call).map(|o| (o.1, o.2)).collect()
     });
     let mut delivered = delivered;
+    if forged_seen.get() > 0 {
+        report.probe("forged_items_delivered_to_the_reader", forged_seen.get());
+    }
     if late_ambiguous.get() {
         // a late answer arrived before the call returned at an instant where the trace cannot tell whether
         // the lookup was still running: not judged
